@@ -39,7 +39,7 @@ COMPONENTS = {
 }
 PROBES = ["non_identity_order_with_per_atom_drive", "relabelled_register", "reinserted_register", "resume_under_non_identity_order", "dark_atoms_present", "slm_mask_present", "dmm_present", "pi_pulse_bitstring", "non_permutable_observable_safeguard", "real_optimiser_order", "user_initial_state", "register_of_8_to_16_atoms", "observable_with_tag_suffix"]
 ASSUMPTIONS = [
-    "comparison tolerance 2e-3 absolute on occupations / correlations, 2e-3 x |H| on energies and 2e-3 x |H|^2 on energy second moment / variance (|H| = an upper bound on the energy scale computed from the scenario, SLM detuning included); the two-site TDVP projection error depends on the site order (the largest occupation discrepancy seen over seeds 0-8 was 7e-5, with an SLM mask), a misdirected per-atom drive moves an occupation by >= 0.05; workloads keep the order-dependent TDVP error orders of magnitude below it (bond dimension uncapped, precision 1e-8, E*dt <= 0.05) and a misdirected per-atom drive changes some occupation by >= 0.05",
+    "per-atom tolerance max(2e-3, 0.5 T E^3 dt^2) with E the largest single energy of the scenario (two-site TDVP splitting error; the generator keeps the estimate below the floor, e.g. SLM scenarios use a weak first pulse because the mask is a detuning of 10 x its amplitude); comparison tolerance 2e-3 absolute on occupations / correlations, 2e-3 x |H| on energies and 2e-3 x |H|^2 on energy second moment / variance (|H| = an upper bound on the energy scale computed from the scenario, SLM detuning included); the two-site TDVP projection error depends on the site order (the largest occupation discrepancy seen over seeds 0-8 was 7e-5, with an SLM mask), a misdirected per-atom drive moves an occupation by >= 0.05; workloads keep the order-dependent TDVP error orders of magnitude below it (bond dimension uncapped, precision 1e-8, E*dt <= 0.05) and a misdirected per-atom drive changes some occupation by >= 0.05",
     "bit strings are compared exactly only in the pi-pulse workload (deterministic outcome); elsewhere per position against the occupations of the same run (exact binomial test, family-wise level 1e-9 per invocation, noiseless runs only)",
 ]
 
@@ -51,7 +51,7 @@ def plan(tier: str) -> dict:
 
 
 def gen_case(tape: Tape, tier: str) -> dict:
-    kind = tape.weighted(["local", "dmm", "slm", "pi", "geometry", "dark", "initial", "blockade"], [0.22, 0.13, 0.14, 0.15, 0.06, 0.1, 0.08, 0.12], "drive_kind")
+    kind = tape.weighted(["local", "dmm", "slm", "pi", "geometry", "dark", "initial", "blockade", "usermat"], [0.2, 0.12, 0.13, 0.14, 0.05, 0.1, 0.07, 0.11, 0.08], "drive_kind")
     n = tape.int(2, 5 if tier == "quick" else 6, "n_atoms")
     if kind in ("slm", "dark", "blockade"):
         n = max(n, 3)
@@ -95,11 +95,15 @@ def gen_case(tape: Tape, tier: str) -> dict:
     T = tape.int(20, 90, "T") if not close_pair else tape.int(70, 100, "T")
     if large:
         T = min(T, 20 + T % 21)
-    dt = float(tape.choice([1, 2, 3], "dt")) if not close_pair else float(tape.choice([2, 3], "dt"))
+    dt = float(tape.choice([1, 2, 3], "dt")) if not close_pair else float(tape.choice([1, 2], "dt"))
+    if kind == "slm":
+        dt = 1.0  # the mask is a detuning of -10 x the first pulse's amplitude: the largest energy of the scenario
     ops: list[dict] = []
     scn: dict[str, Any] = {"atoms": atoms, "xy": False, "modulation": False, "has_local": False, "local_init": None, "dmm": None, "slm": None, "ops": ops}
     cfg_extra: dict[str, Any] = {}
     g_amp = round(tape.float(2.0, 8.0, "g_amp"), 3) if not close_pair else round(tape.float(7.0, 10.0, "g_amp"), 3)
+    if kind == "slm":
+        g_amp = round(0.8 + 0.7 * (g_amp % 1.0), 3)  # 0.8 .. 1.5 rad/us while the mask is on (mask detuning <= 15 rad/us)
     g_det = round(tape.float(-3.0, 3.0, "g_det"), 3) if not close_pair else round(tape.float(-1.0, 1.0, "g_det"), 3)
     if kind == "pi":
         # pi pulse on one atom through the local channel, no interaction: the outcome is deterministic
@@ -135,6 +139,17 @@ def gen_case(tape: Tape, tier: str) -> dict:
         # masked, the blockade of that pair must switch on exactly then
         if tape.bool(0.7, "slm_second_pulse") or pair is not None:
             ops.append({"op": "pulse", "ch": "g", "dur": tape.int(60, 90, "T_after_slm"), "amp": {"k": "const", "v": round(tape.float(7.0, 10.0, "g_amp2"), 3)}, "det": {"k": "const", "v": round(tape.float(-1.0, 1.0, "g_det2"), 3)}, "phase": 0.0})
+    if kind == "usermat":
+        # a user-supplied interaction matrix with couplings of both signs (attractive and repulsive): which atoms
+        # interact how is visible only through it, and the ordering optimiser is handed that very tensor
+        m = [[0.0] * n for _ in range(n)]
+        for i in range(n):
+            for j in range(i + 1, n):
+                v = round(tape.float(1.0, 8.0, f"u{i}{j}"), 3) * (-1.0 if tape.bool(0.5, f"neg{i}{j}") else 1.0)
+                m[i][j] = m[j][i] = v if tape.bool(0.8, f"has{i}{j}") else 0.0
+        if not any(x < 0 for row in m for x in row):
+            m[0][1] = m[1][0] = -abs(m[0][1] or 4.0)
+        cfg_extra["interaction_matrix"] = m
     if kind == "dark":
         cfg_extra["noise"] = {"state_prep_error": round(tape.float(0.2, 0.5, "prep"), 2), "runs": 1, "samples_per_run": 1}
     if kind == "initial":
@@ -224,6 +239,9 @@ def energy_scale(case: dict) -> float:
         for i in range(n):
             for j in range(i + 1, n):
                 u += 5420158.53 / max(1e-9, math.hypot(pts[i][0] - pts[j][0], pts[i][1] - pts[j][1])) ** 6
+    else:
+        m = case["cfg"]["interaction_matrix"]
+        u = sum(abs(m[i][j]) for i in range(n) for j in range(i + 1, n))
     drive = 0.0
     for o in case["scn"]["ops"]:
         if o["op"] == "pulse":
@@ -240,10 +258,41 @@ def energy_scale(case: dict) -> float:
     return max(1.0, n * drive + u + slm)
 
 
+def splitting_error_estimate(case: dict) -> float:
+    """Two-site TDVP at full bond dimension is exact only up to the splitting error between the two-site updates of a
+    sweep, of order (E dt)^3 per step with E the largest single energy of the Hamiltonian (a coupling, a Rabi
+    frequency, a detuning - the SLM mask is a detuning of 10 x the first pulse's amplitude); which terms sit on
+    adjacent sites, and therefore its prefactor, depends on the internal order.  Over the run: T E^3 dt^2."""
+    pts = [(a[1], a[2]) for a in case["scn"]["atoms"]]
+    n = len(pts)
+    e = 0.0
+    m = case["cfg"].get("interaction_matrix")
+    for i in range(n):
+        for j in range(i + 1, n):
+            e = max(e, abs(m[i][j]) if m is not None else 5420158.53 / max(1e-9, math.hypot(pts[i][0] - pts[j][0], pts[i][1] - pts[j][1])) ** 6)
+    first_amp = None
+    for o in case["scn"]["ops"]:
+        if o["op"] == "pulse":
+            vals = [abs(v) for w in (o["amp"], o["det"]) for v in ([w.get("v", 0.0), w.get("a", 0.0), w.get("b", 0.0)] + list(w.get("vals", [])))]
+            e = max([e] + vals)
+            if first_amp is None and o["ch"] == "g":
+                first_amp = max([abs(o["amp"].get(k, 0.0)) for k in ("v", "a", "b")] + [abs(v) for v in o["amp"].get("vals", [])])
+        elif o["op"] == "dmm":
+            e = max(e, abs(o["wave"].get("v", 0.0)))
+    if case["scn"].get("slm") and first_amp:
+        e = max(e, 10.0 * first_amp)
+    e_ns = e * 1e-3  # rad/ns
+    return float(case["T"]) * e_ns**3 * float(case["cfg"]["dt"]) ** 2
+
+
 def tolerances(case: dict) -> dict:
-    """Energies scale with |H|, second moment and variance with |H|^2: the comparison tolerance is relative."""
+    """Energies scale with |H|, second moment and variance with |H|^2: the comparison tolerance is relative.  Per-atom
+    quantities get max(TOL, 0.5 x the splitting-error estimate of the scenario); the generator keeps that estimate below
+    2 TOL, so this is a safety net (largest observed discrepancy / estimate: 0.15, in the scenario that prompted it)."""
     h = energy_scale(case)
-    return {"energy": TOL * h, "energy_variance": TOL * h * h, "energy_second_moment": TOL * h * h}
+    t = max(TOL, 0.5 * splitting_error_estimate(case))
+    f = t / TOL
+    return {"occupation": t, "correlation_matrix": t, "occupation_x": t, "correlation_matrix_x": t, "energy": t * h, "energy_variance": t * h * h, "energy_second_moment": t * h * h, "_scale": f}
 
 
 def compare_by_label(a: dict, b: dict, label_map: dict[str, str], tol: float, tol_by_tag: dict | None = None) -> list[str]:
@@ -316,8 +365,8 @@ def run_one(tape: Tape, tier: str, opts: dict) -> dict:
         perms: list[Any] = [ident[::-1]]
         for i in range(2 if tier == "quick" else 4):
             perms.append(tape.permutation(n, f"perm{i}"))
-        if tape.bool(0.25 if tier == "quick" else 0.4, "use_real"):
-            perms.append("real")
+        if tape.bool(0.25 if tier == "quick" else 0.4, "use_real") or kind == "usermat":
+            perms.append("real")  # the real optimiser runs (on the tensor the solver uses), its answer is the order
         resume_choice = tape.int(0, len(perms) - 1, "resume_choice") if tape.bool(0.4, "with_resume") else -1
         for pi_, perm in enumerate(perms):
             do_resume = pi_ == resume_choice
@@ -395,7 +444,7 @@ def run_one(tape: Tape, tier: str, opts: dict) -> dict:
                 if tuple(out2.results["atom_order"]) != exp_order:
                     V.append({"clause": "C03.atom-order", "site": "relabel", "msg": f"atom_order {out2.results['atom_order']} != register order {exp_order} :: {desc}"})
                 else:
-                    d2 = compare_by_label(ref.results, out2.results, newlab, TOL, tolt)
+                    d2 = compare_by_label(ref.results, out2.results, newlab, tolt["occupation"], tolt)
                     if d2:
                         V.append({"clause": "C03.relabelling-changes-results", "site": kind, "msg": f"re-inserting the register as {scn2['atoms']} (internal order {perm2}) changes per-label results: {d2[:3]} :: {desc}"})
         # ---- safeguard: an observable that cannot be un-permuted must switch reordering off
@@ -424,7 +473,7 @@ def run_one(tape: Tape, tier: str, opts: dict) -> dict:
             else:
                 nperm = len(world.log.of_kind("perm")) - nperm_before
                 tol3 = dict(tolt)
-                tol3.update({"state": TOL, "fidelity": TOL, "entanglement_entropy": TOL, "expectation": TOL * energy_scale(case)})
+                tol3.update({"state": tolt["occupation"], "fidelity": tolt["occupation"], "entanglement_entropy": tolt["occupation"], "expectation": tolt["occupation"] * energy_scale(case)})
                 d3 = R.compare(out3i.results, out3.results, tol=TOL, skip_counters=True, tol_by_tag=tol3)
                 if d3:
                     V.append({"clause": "C03.safeguard", "site": extra_obs, "msg": f"with the non-permutable observable {extra_obs} (singling out atom #{j}) requested, internal order {list(perm3)} gives different results than the identity order: {d3[:3]}; the optimiser was consulted {nperm} times :: {desc}"})
@@ -443,6 +492,8 @@ def run_one(tape: Tape, tier: str, opts: dict) -> dict:
             "sim_wall_s": world.clock.total_advanced,
             "faults": {"crash": probes.get("resume_under_non_identity_order", 0)},
             "maxdisc": maxdisc,
+            "tol_used": tolt["occupation"],
+            "split_est": splitting_error_estimate(case),
             "ncmp_bits": ncmp_bits,
         }
     finally:
@@ -539,4 +590,4 @@ def finish(results: list[dict], tier: str, opts: dict) -> tuple[list[dict], dict
         from ..seams import HarnessError
 
         raise HarnessError("more bit-string comparisons than the per-comparison level was derived for")
-    return [], {"calibration_max_discrepancy": m, "tolerance": TOL, "bitstring_position_comparisons": nb}
+    return [], {"calibration_max_discrepancy": m, "tolerance": TOL, "largest_tolerance_used": max([r.get("tol_used", TOL) for r in results] or [TOL]), "largest_splitting_error_estimate": max([r.get("split_est", 0.0) for r in results] or [0.0]), "bitstring_position_comparisons": nb}
